@@ -1,5 +1,6 @@
 /- Model/C19Gen.lean — the C19 model instantiated with the facts the translator extracted. -/
 import PsutilModel.Model.C19
+import PsutilModel.Model.C19Dir
 import PsutilModel.Generated.C19
 namespace Psutil.C19
 
@@ -37,10 +38,26 @@ def cfg : Cfg :=
     energyFullFirst := Gen.C19.energyFullAlts == ["energy_full", "charge_full"]
     ac0First := Gen.C19.onlineAlts == ["AC0/online", "AC/online"]
     batPrefix := Gen.C19.batPrefix
-    batInfix := Gen.C19.batInfix }
+    batInfix := Gen.C19.batInfix
+    noDirNone := Gen.C19.batteryNoDirNone }
 
-/-- the file-name facts the model hard-codes (names of the alternatives, keys of /proc/stat);
-    `cfg_good` in Props/C19.lean proves this of the generated facts -/
+/-- `boot_time()` returns the value it has just read (`return ret`, `ret = float(line.strip().split()[1])`),
+    not the remembered module global -/
+def bootReturnsFresh : Bool := Gen.C19.bootTimeReturn == ["ret", "float(line.strip().split()[1])"]
+
+/-- `_common.cat/bcat(path, fallback=…)` turn EVERY OSError — raised by `open()` or by `read()` — into the
+    fallback: what the model's single `unreadable` file state (`FileState.readOpt = none`) stands on.
+    Obligation `cfg_cat` in Props/C19.lean. -/
+def catAsModelled : Bool :=
+  (Gen.C19.catCaught.flatMap excOfName).contains .osError && Gen.C19.catTryCoversRead
+
+/-- ASCII string → bytes, for tying the generated strings to the byte constants the model is written with -/
+def asciiBytes (s : String) : Bytes := s.toList.map (·.toNat)
+
+/-- the file-name facts the model hard-codes (names of the alternatives, keys of /proc/stat, glob patterns);
+    `cfg_names` in Props/C19.lean proves this of the generated facts. Where the model is written with a byte
+    constant (`kBtime`, `bSufType`, …) the generated string is compared with THAT constant (`asciiBytes`), so
+    a misspelt model constant breaks the obligation just as a changed source does. -/
 def namesAsModelled : Bool :=
   (Gen.C19.energyNowAlts == ["energy_now", "charge_now"] || Gen.C19.energyNowAlts == ["charge_now", "energy_now"])
   && (Gen.C19.powerNowAlts == ["power_now", "current_now"] || Gen.C19.powerNowAlts == ["current_now", "power_now"])
@@ -59,5 +76,23 @@ def namesAsModelled : Bool :=
   -- `== 'critical'` → critical, `== 'high'` → high (`tripAssign`)
   && Gen.C19.tripNameRule == ["/trip_point*", "_", "0", "3", "_type", "_temp"]
   && Gen.C19.tripKinds == ["critical", "critical", "high", "high"]
+  -- round 3: generated strings = the model's own byte constants
+  && Gen.C19.statKeys.map asciiBytes == [kCtxt, kIntr, kSoftirq]
+  && asciiBytes Gen.C19.btimeKey == kBtime
+  && (Gen.C19.coresMapping.take 2).map asciiBytes == [kPhysicalId, kCpuCores]
+  && (Gen.C19.tripNameRule.drop 4).map asciiBytes == [bSufType, bSufTemp]
+  && (Gen.C19.tripNameRule.take 1).map asciiBytes == [47 :: bTripPoint ++ [42]]
+  && [Gen.C19.tripKinds.getD 0 "", Gen.C19.tripKinds.getD 2 ""].map asciiBytes == [bCritical, bHigh]
+  -- glob patterns: every `hwmonN` / `thermal_zoneN` / `policyN` / `cpuN` directory whatever the number of digits
+  && Gen.C19.tempGlobs == ["/sys/class/hwmon/hwmon*/temp*_*", "/sys/class/hwmon/hwmon*/device/temp*_*",
+                           "/sys/devices/platform/coretemp.*/hwmon/hwmon*/temp*_*", "/sys/class/thermal/thermal_zone*",
+                           "<base + '/trip_point*'>"]
+  && Gen.C19.fanGlobs == ["/sys/class/hwmon/hwmon*/fan*_*", "/sys/class/hwmon/hwmon*/device/fan*_*"]
+  && Gen.C19.cpufreqGlobs == ["/sys/devices/system/cpu/cpufreq/policy[0-9]*", "/sys/devices/system/cpu/cpu[0-9]*/cpufreq"]
+  -- boot_time: the value just read is returned (`bootTimeCall true`)
+  && bootReturnsFresh
+  -- cpu_count_logical / _cpu_get_cpuinfo_freq: case-insensitive line tests (`lower l` in the model), `cpu\d` rows
+  && Gen.C19.logicalTests == ["line.lower().startswith(b'processor')", "|", "cpu\\d", "|", "line.split(' ')[0]"]
+  && Gen.C19.cpuinfoFreqTest == ["float(line.split(b':', 1)[1])", "line.lower().startswith(b'cpu mhz')"]
 
 end Psutil.C19
